@@ -1271,3 +1271,42 @@ Lemma find_roots_fp_depth (fp : nat -> list desc) rank limit node fuel roots :
      (fp (d_id r) = [] \/ path fp (Z.to_nat limit) (d_id node) (d_id r))) /\
   (exists r, In r roots /\ reach fp (d_id node) (d_id r)).
 Proof. intros Hr Hl H. exact (roots_depth fp limit node rank Hr fuel roots Hl H). Qed.
+
+(* ------------------------------------------------------------------ the walk over any relation
+   equivalent to the followed-predecessor relation *)
+Lemma rpath_equiv (R1 R2 : nat -> nat -> Prop) :
+  (forall x y, R1 x y <-> R2 x y) -> forall k a c, rpath R1 k a c <-> rpath R2 k a c.
+Proof.
+  intros H k a c. split; intro P; induction P; try constructor; econstructor; eauto; now apply H.
+Qed.
+
+Lemma path_rpath_E fp k a c : path fp k a c <-> rpath (E fp) k a c.
+Proof. split; intro P; induction P; try constructor; econstructor; eauto. Qed.
+
+Lemma find_roots_unlimited_rel s fs rank limit node fuel roots (R : nat -> nat -> Prop) :
+  (forall x y, E (find_preds s fs) x y <-> R x y) ->
+  acyclic_source s rank -> (limit <= 0)%Z ->
+  find_roots fuel s fs limit node = Some roots ->
+  let up a c := exists k, rpath R k a c in
+  (forall r, In r roots -> up (d_id node) (d_id r) /\ forall y, ~ R (d_id r) y) /\
+  (forall a, up (d_id node) a -> (forall y, ~ R a y) -> In a (map d_id roots)) /\
+  (forall a, up (d_id node) a -> exists r, In r roots /\ up a (d_id r)).
+Proof.
+  intros HR Hac Hl Hf up.
+  assert (Hup : forall a c, anc s fs a c <-> up a c).
+  { intros a c. unfold anc, reach, up. split; intros (k & P); exists k.
+    - apply (rpath_equiv _ _ HR). now apply path_rpath_E.
+    - apply path_rpath_E. now apply (rpath_equiv _ _ HR). }
+  assert (Hnil : forall x, find_preds s fs x = [] <-> forall y, ~ R x y).
+  { intro x. split.
+    - intros E0 y Hy. apply HR in Hy. unfold E in Hy. rewrite E0 in Hy. contradiction.
+    - intro Hn. destruct (find_preds s fs x) as [|p l] eqn:Ep; auto.
+      exfalso. apply (Hn (d_id p)). apply HR. unfold E. rewrite Ep. left. reflexivity. }
+  destruct (find_roots_unlimited s fs rank limit node fuel roots Hac Hl Hf) as (H1 & H2 & H3).
+  repeat split.
+  - apply Hup. now apply H1.
+  - apply Hnil. now apply H1.
+  - intros a Ha Hn. apply H2; [now apply Hup | now apply Hnil].
+  - intros a Ha. destruct (H3 a) as (r & Hr & Hra); [now apply Hup|].
+    exists r. split; auto. now apply Hup.
+Qed.
